@@ -10,6 +10,7 @@ def runCase (lines : Array String) : Array String :=
     | ["reopen"] => "reopen same=1"
     | "append" :: _ => "append larger=1"
     | ["busyappend"] => "busyappend refused"
+    | ["concappend", _, _] => "concappend ok"
     | _ => "bad-op " ++ l
 
 def kvOf (ws : List String) (k : String) : String :=
